@@ -1,7 +1,7 @@
 (* Props/C02.v -- statements claimed for C02 (mass matrix = exact PL L2 product). *)
 From Coq Require Import List Reals.
 From LaPyV Require Import Base.Scalar Base.Vec3 Base.ListAux Base.Sparse Model.TetMesh Model.Fem
-  Proofs.SparseP Proofs.TetMeshP Proofs.FemTriaP Proofs.FemTetP.
+  Proofs.SparseP Proofs.TetMeshP Proofs.FemTriaP Proofs.FemTetP Proofs.FemMassEqP.
 Import ListNotations.
 Open Scope R_scope.
 
@@ -68,3 +68,10 @@ Theorem C02_tet_lumped_rowsums : forall v ts f,
   bilin Rops f (fem_tet_B Rops true v ts) (fun _ => 1) = bilin Rops f (fem_tet_B Rops false v ts) (fun _ => 1).
 Proof. exact fem_tet_B_lumped_is_rowsum. Qed.
 Print Assumptions C02_tet_lumped_rowsums.
+
+(* the stand-alone routine Solver.fem_tria_mass (area from 0.5 sqrt, guard == 0) returns, entry by entry, the mass matrix that
+   Solver(...) assembles (4 area from 2 sqrt, guard < eps), on every mesh without a degenerate triangle *)
+Theorem C02_fem_tria_mass_equals_solver_mass : forall lump v ts, tria_nondeg v ts ->
+  fem_tria_mass Rops lump v ts = fem_tria_B Rops lump v ts.
+Proof. exact fem_tria_mass_is_solver_mass. Qed.
+Print Assumptions C02_fem_tria_mass_equals_solver_mass.
